@@ -341,7 +341,7 @@ where
                         if (li + ki + n) % leaf_stride != 0 {
                             continue;
                         }
-                        for (how, nv) in [("+1", val.clone() + 1), ("-1", val.clone() - 1), ("=0", Integer::from(0))] {
+                        for (how, nv) in [("+1", val.clone() + 1), ("-1", val.clone() - 1), ("=0", Integer::from(0)), ("+2^128", val.clone() + Integer::from(2).pow(128))] {
                             if &nv == val {
                                 continue;
                             }
@@ -449,7 +449,7 @@ where
                     if (li + ki + n) % leaf_stride != 0 {
                         continue;
                     }
-                    let mut variants = vec![("+1", val.clone() + 1), ("-1", val.clone() - 1), ("=0", Integer::from(0))];
+                    let mut variants = vec![("+1", val.clone() + 1), ("-1", val.clone() - 1), ("=0", Integer::from(0)), ("+2^128", val.clone() + Integer::from(2).pow(128))];
                     if li + 1 < leaves.len() {
                         variants.push(("swap", leaves[li + 1].1.clone()));
                     }
@@ -537,7 +537,7 @@ where
                     for (tname, tx) in targets {
                         let r2 = rng.bits(C::ln);
                         let e2 = (pow_signed_big(g, &tx, n) * pow_signed_big(h, &r2, n)).modulo(n);
-                        let res = guard(|| transplant::<C>(&pj, &e2, g, n, &a, &b).verify::<C::HashAlg>(g, h, n, &a, &b));
+                        let res = guard(|| [false, true].iter().any(|&wd| transplant::<C>(&pj, &e2, g, n, &a, &b, wd).verify::<C::HashAlg>(g, h, n, &a, &b)));
                         ev.push(json!({"op": "CLRange", "suite": suite, "key": ki, "bases": bname, "width": wname, "x": xname, "case": format!("transplant:{tname}"), "res": b3(res)}));
                     }
                     // one-sided transplants: one half genuine for the target commitment (made against a shifted
@@ -550,26 +550,36 @@ where
                             let res = guard(|| {
                                 let genuine = Boudot2000RangeProof::prove::<C::HashAlg>(&tx, &com2, g, h, n, &lo, &hi);
                                 let gj = serde_json::to_value(&genuine).unwrap();
-                                let mut p = serde_json::to_value(transplant::<C>(&pj, &e2, g, n, &a, &b)).unwrap();
-                                // keep the genuine half for the in-range side
-                                let keep = if side == "upper" { ["E_a_1", "E_a_2", "proof_of_square_a", "proof_large_i_a"] } else { ["E_b_1", "E_b_2", "proof_of_square_b", "proof_large_i_b"] };
-                                for k in keep {
-                                    p["proof_of_tolerance"][k] = gj["proof_of_tolerance"][k].clone();
-                                }
-                                let pp: Boudot2000RangeProof = serde_json::from_value(p).unwrap();
-                                pp.verify::<C::HashAlg>(g, h, n, &a, &b)
+                                [false, true].iter().any(|&wd| {
+                                    let mut p = serde_json::to_value(transplant::<C>(&pj, &e2, g, n, &a, &b, wd)).unwrap();
+                                    // keep the genuine half for the in-range side
+                                    let keep = if side == "upper" { ["E_a_1", "E_a_2", "proof_of_square_a", "proof_large_i_a"] } else { ["E_b_1", "E_b_2", "proof_of_square_b", "proof_large_i_b"] };
+                                    for k in keep {
+                                        p["proof_of_tolerance"][k] = gj["proof_of_tolerance"][k].clone();
+                                    }
+                                    let pp: Boudot2000RangeProof = serde_json::from_value(p).unwrap();
+                                    pp.verify::<C::HashAlg>(g, h, n, &a, &b)
+                                })
                             });
                             ev.push(json!({"op": "CLRange", "suite": suite, "key": ki, "bases": bname, "width": wname, "x": xname, "case": format!("transplant:onesided_{side}"), "res": b3(res)}));
                         }
                     }
                     let rnd = rng.below_int(n).pow_mod(&Integer::from(2), n).unwrap();
-                    let res = guard(|| transplant::<C>(&pj, &rnd, g, n, &a, &b).verify::<C::HashAlg>(g, h, n, &a, &b));
+                    let res = guard(|| [false, true].iter().any(|&wd| transplant::<C>(&pj, &rnd, g, n, &a, &b, wd).verify::<C::HashAlg>(g, h, n, &a, &b)));
                     ev.push(json!({"op": "CLRange", "suite": suite, "key": ki, "bases": bname, "width": wname, "x": xname, "case": "transplant:random_element", "res": b3(res)}));
+                    // shifted proofs: the commitment divided by g^d (a commitment to x - d with the same randomness),
+                    // E_a_2 / E_b_2 moved by g^(-+2^T d) and the D_1 responses of the two larger-interval proofs moved by
+                    // -+2^T d c; everything is computed from the honest proof and public values
+                    for (tname, d) in [("a-1", (x - &a).complete() + 1), ("b+1", (x - &b).complete() - 1), ("a-w", (x - &a).complete() + w), ("b+w", (x - &b).complete() - w)] {
+                        let res = guard(|| shifted::<C>(&pj, &d, g, n, &a, &b).verify::<C::HashAlg>(g, h, n, &a, &b));
+                        ev.push(json!({"op": "CLRange", "suite": suite, "key": ki, "bases": bname, "width": wname, "x": xname, "case": format!("shifted:{tname}"), "res": b3(res)}));
+                    }
                     // every integer leaf +-1
                     let leaves = int_leaves(&pj);
                     ev.push(json!({"op": "CLFormat", "suite": suite, "proof": "range", "n": 0, "U": [], "trusted": false, "paths": leaves.iter().map(|l| norm_path(&l.0)).collect::<Vec<_>>()}));
                     for (path, val) in leaves.iter() {
-                        for (how, nv) in [("+1", val.clone() + 1), ("-1", val.clone() - 1)] {
+                        // (+2^128: a change that leaves the low t bits, the part of a hash used as challenge, as they are)
+                        for (how, nv) in [("+1", val.clone() + 1), ("-1", val.clone() - 1), ("+2^128", val.clone() + Integer::from(2).pow(128))] {
                             let mut p2 = pj.clone();
                             set_leaf(&mut p2, path, &nv);
                             let res = guard(|| {
@@ -593,15 +603,41 @@ where
     }
 }
 
+/// move an honest range proof for x to the commitment E / g^d (value x - d): only public values are used
+fn shifted<C: CLCiphersuite>(pj: &Value, d: &Integer, g: &Integer, n: &Integer, a: &Integer, b: &Integer) -> Boudot2000RangeProof {
+    let t = 128u32;
+    let tt = 2 * (128u32 + 40u32 + 1) + (b - a).complete().significant_bits();
+    let two_t = Integer::from(2).pow(tt);
+    let geti = |v: &Value| -> Integer { serde_json::from_value(v.clone()).unwrap() };
+    let mut p = pj.clone();
+    let e2 = (geti(&pj["E"]) * pow_signed_big(g, &(-d.clone()), n)).modulo(n);
+    let eprime = e2.clone().pow_mod(&two_t, n).unwrap();
+    let td = (&two_t * d).complete();
+    for (side, sign) in [("a", -1i32), ("b", 1i32)] {
+        let k2 = format!("E_{side}_2");
+        let kp = format!("proof_large_i_{side}");
+        let mv = Integer::from(sign) * &td;                       // change of the remainder x_side_2
+        let e_2 = (geti(&pj["proof_of_tolerance"][&k2]) * pow_signed_big(g, &mv, n)).modulo(n);
+        let c = geti(&pj["proof_of_tolerance"][&kp]["C"]).modulo(&Integer::from(2).pow(t));
+        let d1 = geti(&pj["proof_of_tolerance"][&kp]["D_1"]) + mv * c;
+        p["proof_of_tolerance"][&k2] = serde_json::to_value(&e_2).unwrap();
+        p["proof_of_tolerance"][&kp]["D_1"] = serde_json::to_value(&d1).unwrap();
+    }
+    p["E"] = serde_json::to_value(&e2).unwrap();
+    p["E_prime"] = serde_json::to_value(&eprime).unwrap();
+    serde_json::from_value(p).unwrap()
+}
+
 /// carry the sub-proofs of an honest range proof over to the commitment value e2:
 /// E := e2, E' := e2^(2^T), E_a1 := E_a(e2) / E_a2, E_b1 := E_b(e2) / E_b2, everything else reused
-fn transplant<C: CLCiphersuite>(pj: &Value, e2: &Integer, g: &Integer, n: &Integer, a: &Integer, b: &Integer) -> Boudot2000RangeProof {
+/// (`widen`: the reference points 2^T a, 2^T b moved outwards by 2^(l+t+T/2+1) sqrt(b-a), as the pinned code had them)
+fn transplant<C: CLCiphersuite>(pj: &Value, e2: &Integer, g: &Integer, n: &Integer, a: &Integer, b: &Integer, widen: bool) -> Boudot2000RangeProof {
     let (t, l) = (128u32, 40u32);
     let tt = 2 * (t + l + 1) + (b - a).complete().significant_bits();
     let mut p = pj.clone();
     let eprime = e2.clone().pow_mod(&Integer::from(2).pow(tt), n).unwrap();
     let sq = Integer::from((b - a).complete().sqrt_ref());
-    let shift = Integer::from(2).pow(l + t + tt / 2 + 1) * sq;
+    let shift = if widen { Integer::from(2).pow(l + t + tt / 2 + 1) * sq } else { Integer::from(0) };
     let aa = Integer::from(2).pow(tt) * a - &shift;
     let bb = Integer::from(2).pow(tt) * b + &shift;
     let ea = (eprime.clone() * pow_signed_big(g, &(-aa), n)).modulo(n);
